@@ -23,6 +23,9 @@ Spec == Init /\ [][Next]_<<s, buf, cfgb>>
 CapLeft(x) == IF x.cap >= Inf THEN 9 ELSE x.cap - Len(x.hdrs)
 Abs == <<s.kind, s.ph, s.k, CapLeft(s), Len(s.hdrs) = 0, s.err, s.st, s.q, s.obs, cfgb>>
 Emit == PrintT(ToJson(<<KindId(s.kind), cfgb, s.cap, buf, PhId(s.ph)>>))
+\* which grammar elements (action labels) handle the alphabet's bytes in this abstract state:
+\* aggregated by the driver into the per-element coverage reported in every evidence file
+EmitLabels == PrintT(<<"LABELS", ToJson({ActionOf(s, b) : b \in Alphabet})>>)
 
 \* design-level properties evaluated on every abstract state
 HonestPartial == HonestPartialAt(s)
